@@ -45,14 +45,30 @@ def run(ctx: Ctx) -> bool:
                    "Context": lambda nd, e, env: Tok("context"), "Locals": lambda nd, e, env: Tok("locals"),
                    "IntOverflowError": lambda nd, e, env: Tok("IntOverflowError"), "IllegalComptimeTypeArgError": lambda nd, e, env: Tok("IllegalComptimeTypeArgError"),
                    "__globals__": {}}
-            ev = PyEval(idx, TP, max_depth=6)
-            ev.lenient = True
+            def h_bounds_spec(nd, e, env):
+                # the specification of `_int_bounds_check(value, node, signed)` -- the function itself is decided by R-C17.1
+                vals = [e.ev(a, env) for a in nd.args] + [e.ev(k.value, env) for k in nd.keywords]
+                val, signed = vals[0], bool(vals[2]) if len(vals) > 2 else True
+                lo, hi = (-(1 << 63), (1 << 63) - 1) if signed else (0, (1 << 64) - 1)
+                if not (lo <= val <= hi):
+                    raise Raised("value out of range", "GuppyTypeError")
+                return None
+
+            def attempt(extra):
+                ev = PyEval(idx, TP, max_depth=6)
+                ev.lenient = True
+                made.clear()
+                try:
+                    out = ev.run(f.node.body, {**env, **extra})
+                    return (str(out[1]) if out[0] == "raise" else None), (out[1] if out[0] == "return" else None)
+                except Raised as e:
+                    return e.cls or str(e), None
+
             try:
-                out = ev.run(f.node.body, env)
-                raised = str(out[1]) if out[0] == "raise" else None
-                ret = out[1] if out[0] == "return" else None
-            except Raised as e:
-                raised, ret = e.cls or str(e), None
+                raised, ret = attempt({})
+            except Unsupported:
+                # the range-check helper could not be followed across the module boundary: use its specification instead
+                raised, ret = attempt({"_int_bounds_check": h_bounds_spec})
             fits = 0 <= v <= (1 << 64) - 1
             accepted = raised is None and isinstance(ret, Tok) and ret.name == "ConstArg"
             value_ok = accepted and isinstance(ret.attrs.get("const"), Tok) and ret.attrs["const"].attrs.get("value") == v and type(ret.attrs["const"].attrs.get("value")) is int
